@@ -128,3 +128,51 @@ def no_shared_mutable_state(prop="C20", modules=("ford.reader", "ford.sourceform
         out.append(OR(id=f"{prop}.S.per_instance_containers", status=PROVED, kind="S", role="invariant", backend="ast", target=", ".join(modules),
                       desc="no class of the parsing modules keeps a mutable container at class level that its methods mutate"))
     return out
+
+
+COPIERS = ("copy", "deepcopy", "list", "dict", "set", "tuple", "sorted")
+
+
+def mutable_defaults_not_shared(prop, modules=("ford.sourceform",), replay=None):
+    """a default argument is evaluated once: a parameter whose default is a mutable container ([], {}, set(), ...) is one object shared by every call that omits it.  For every
+    such parameter in the current source: the function does not keep a reference to it (`self.x = p`, `obj.x = p`, put into a container, returned) and does not mutate it
+    (`p.append(..)`, `p[..] = ..`, `p += ..`); keeping a copy (`copy.copy(p)`, `list(p)`, `p[:]`, `p or []`) is fine.  Otherwise what one entity receives (an attribute from an
+    attribute statement, say) shows up on every other entity built with the default."""
+    out = []
+    for module in modules:
+        _, tree = loader.module_source(module)
+        for fn in [x for x in ast.walk(tree) if isinstance(x, (ast.FunctionDef, ast.AsyncFunctionDef))]:
+            a = fn.args
+            pos = a.posonlyargs + a.args
+            pairs = list(zip(pos[len(pos) - len(a.defaults):], a.defaults)) + [(k, d) for k, d in zip(a.kwonlyargs, a.kw_defaults) if d is not None]
+            for arg, d in pairs:
+                if not (isinstance(d, (ast.List, ast.Dict, ast.Set)) or (isinstance(d, ast.Call) and ast.unparse(d.func).split(".")[-1] in ("list", "dict", "set", "defaultdict", "OrderedDict", "deque"))):
+                    continue
+                p, bad = arg.arg, None
+                is_p = lambda e: isinstance(e, ast.Name) and e.id == p
+                for n in ast.walk(fn):
+                    if isinstance(n, ast.Call) and isinstance(n.func, ast.Attribute) and n.func.attr in MUTATORS and is_p(n.func.value):
+                        bad = bad or (n.lineno, f"`{ast.unparse(n)[:60]}` mutates the shared default")
+                    if isinstance(n, ast.AugAssign) and is_p(n.target):
+                        bad = bad or (n.lineno, f"`{ast.unparse(n)[:60]}` mutates the shared default")
+                    if isinstance(n, (ast.Assign, ast.AnnAssign)):
+                        tg = n.targets if isinstance(n, ast.Assign) else [n.target]
+                        if any(isinstance(t, ast.Subscript) and is_p(t.value) for t in tg):
+                            bad = bad or (n.lineno, f"`{ast.unparse(n)[:60]}` mutates the shared default")
+                        v = n.value
+                        # `x = p`, `x = p or []` keeps the object itself (the `or` only replaces an *empty* one - which is the shared default, so that form is fine)
+                        if v is not None and is_p(v) and any(not isinstance(t, ast.Name) for t in tg):
+                            bad = bad or (n.lineno, f"`{ast.unparse(n)[:60]}` keeps a reference to the shared default")
+                    if isinstance(n, ast.Return) and n.value is not None and is_p(n.value):
+                        bad = bad or (n.lineno, "the shared default is returned")
+                r = OR(id=f"{prop}.S.{module.split('.')[-1]}.{fn.name}.{p}.default_not_shared", status=REFUTED if bad else PROVED, kind="S", role="frame", backend="ast", target=f"{module}.{fn.name}",
+                       desc=f"parameter `{p}` of {fn.name} (line {fn.lineno}) has a mutable default: the function neither keeps a reference to it nor mutates it")
+                if bad:
+                    r.witness = {"line": bad[0], "what": bad[1]}
+                    r.detail = f"line {bad[0]}: {bad[1]}: every object built without this argument shares one container"
+                    if replay:
+                        r.replay = replay()
+                out.append(r)
+    if not out:
+        out.append(OR(id=f"{prop}.S.default_not_shared", status=PROVED, kind="S", role="frame", backend="ast", target=", ".join(modules), desc="no parameter with a mutable default"))
+    return out
